@@ -164,9 +164,9 @@ def unet3d_ok(levels: int):
     return ok
 
 
-def normunet3d_ok(levels: int):
+def normunet3d_ok(levels: int, in_ch: int = 2, groups: int = 2):
     u = unet3d_ok(levels)
-    return lambda z, h, w: u(m16(z), m16(h), m16(w))
+    return lambda z, h, w: u(m16(z), m16(h), m16(w)) and (in_ch // groups) * z * h * w >= 2
 
 
 def mwcnn_ok(scales: int):
@@ -330,9 +330,9 @@ def recons() -> list[Entry]:
                        "chw", _c_rim, min_hw=nu if nm in ("instnorm", "normalized") else any_ok,
                        tags=("gru",) + ((nm,) if nm != "default" else ())))
     E.append(Entry("RIM/noskip", "rim", "recon", lambda: RIM(fwd, bwd, hidden_channels=4, length=2, depth=1, skip_connections=False),
-                   "chw", _c_rim, tags=("gru", "noskip"), finding="eval-set_-alias"))
+                   "chw", _c_rim, min_hw=lambda h, w: h >= 2 and w >= 2, tags=("gru", "noskip"), finding="eval-set_-alias"))
     E.append(Entry("RIM/zeropad", "rim", "recon", lambda: RIM(fwd, bwd, hidden_channels=4, length=2, depth=1, replication_padding=False),
-                   "chw", _c_rim, tags=("gru", "zeropad"), finding="gru-zero-padding"))
+                   "chw", _c_rim, min_hw=lambda h, w: h >= 5 and w >= 5, tags=("gru", "zeropad"), finding="gru-zero-padding"))
     E.append(Entry("RIM/scaled-loglikelihood", "rim", "recon", lambda: RIM(fwd, bwd, hidden_channels=4, length=2, depth=1),
                    "chw", _c_rim_scaled, tags=("gru", "scaling_factor")))
     # ---- LPDNet
